@@ -77,6 +77,15 @@ def o_return_types(seq: str, npos: int, glob: bool, nint: int, s: int, e: int, p
             # a slice drops the protein's terminal modifications unless it contains the terminus; the search compares the
             # peptide with the protein's slice at each offset, so offset s must always match
             return _fail(why="peptide not found at its own offset by find_subsequence_indices", s=s, found=list(idx), peptide=r_ann[0].serialize())
+        # ... and so is the peptide *string* (what a user gets from return_type='str'): it is re-parsed by the search
+        idx2 = SF.find_subsequence_indices(a, r_str[0])
+        if s not in idx2:
+            return _fail(why="peptide string not found at its own offset by find_subsequence_indices", s=s, found=list(idx2), peptide=r_str[0])
+        # the string re-parses to an annotation the library itself considers equal to the returned one
+        from crosshair.tracers import NoTracing
+        back = parse(r_str[0])
+        if not (back == r_ann[0]):
+            return _fail(why="parse(peptide string) != returned annotation (library ==)", peptide=r_str[0], got=D.dump(back), want=D.dump(r_ann[0]))
     return True
 
 
